@@ -279,6 +279,12 @@ impl NativeFunctionCompiler for TableAccessScalar {
           _ => Err(MechError::new(UnhandledFunctionArgumentKind2 { arg: (tbl.kind(), ix1.kind()), fxn_name: "TableAccessScalar".to_string() }, None).with_compiler_loc()),
         }
       }
+      // A one-element index vector, range or logical mask selects a one-row table, not a record.
+      #[cfg(all(feature = "table", feature = "matrix"))]
+      (Value::Table(_), Value::MatrixIndex(_)) | (Value::MutableReference(_), Value::MatrixIndex(_)) => TableAccessRange{}.compile(arguments),
+      #[cfg(all(feature = "matrix", feature = "table", feature = "logical_indexing"))]
+      (Value::Table(_), Value::MatrixBool(_)) | (Value::MutableReference(_), Value::MatrixBool(_)) |
+      (Value::Table(_), Value::Bool(_)) | (Value::MutableReference(_), Value::Bool(_)) => TableAccessRange{}.compile(arguments),
       _ => Err(MechError::new(UnhandledFunctionArgumentKind2 { arg: (tbl.kind(), ix1.kind()), fxn_name: "TableAccessScalar".to_string() }, None).with_compiler_loc()),
     }
   }
@@ -400,6 +406,21 @@ impl NativeFunctionCompiler for TableAccessRange {
       return Err(MechError::new(IncorrectNumberOfArguments { expected: 1, found: arguments.len() }, None).with_compiler_loc());
     }
     let ixes = arguments.clone().split_off(1);
+    // Index vectors and masks arrive in several storage forms (a 1x1 matrix, or a scalar for a
+    // one-element range or mask): bring them to the DVector form handled below.
+    #[cfg(feature = "matrix")]
+    let ixes: Vec<Value> = ixes.iter().map(|ix| match ix {
+      Value::MatrixIndex(Matrix::DVector(_)) => ix.clone(),
+      Value::MatrixIndex(m) => Value::MatrixIndex(Matrix::DVector(Ref::new(DVector::from_vec(m.as_vec())))),
+      Value::Index(i) => Value::MatrixIndex(Matrix::DVector(Ref::new(DVector::from_vec(vec![*i.borrow()])))),
+      #[cfg(feature = "logical_indexing")]
+      Value::MatrixBool(Matrix::DVector(_)) => ix.clone(),
+      #[cfg(feature = "logical_indexing")]
+      Value::MatrixBool(m) => Value::MatrixBool(Matrix::DVector(Ref::new(DVector::from_vec(m.as_vec())))),
+      #[cfg(feature = "logical_indexing")]
+      Value::Bool(b) => Value::MatrixBool(Matrix::DVector(Ref::new(DVector::from_vec(vec![*b.borrow()])))),
+      other => other.clone(),
+    }).collect();
     let tbl = arguments[0].clone();
     match (tbl.clone(), ixes.as_slice()) {
       #[cfg(all(feature = "table", feature = "matrix"))]
